@@ -27,3 +27,10 @@ def take(gen, cap):
     if len(out) > cap:
         raise Timeout('more than %d items generated' % cap)
     return out
+
+
+def distinct_keys(distinct):
+    """32-bit digests of the distinct-case keys of one bounded run, so that runs with different seeds can be merged and the distinct cases
+    counted (a digest collision only makes the merged count smaller)"""
+    import zlib
+    return sorted(set(zlib.crc32(repr(k).encode('utf8', 'replace')) for k in distinct))
